@@ -656,6 +656,7 @@ class Unit:
         self.aspect_mods = []
         self.conjunction_rule = []
         self.verus_args = []
+        self.ranges = []
 
     def source(self, rel):
         if rel not in self.sources:
@@ -669,7 +670,12 @@ class Unit:
         while i < len(lines):
             ln = lines[i]
             st = ln.strip()
-            if st.startswith('//@VERUS-ARGS'):
+            if st.startswith('//@RANGE'):
+                # //@RANGE fn :: kind-substring :: clause-substring :: why   (undischarged machine-range obligation)
+                parts = [x.strip() for x in st[len('//@RANGE'):].split('::')]
+                self.ranges.append({'function': parts[0], 'kind': parts[1], 'clause': parts[2], 'why': parts[3] if len(parts) > 3 else ''})
+                i += 1
+            elif st.startswith('//@VERUS-ARGS'):
                 self.verus_args += st.split()[1:]
                 i += 1
             elif st.startswith('//@INCLUDE'):
@@ -901,7 +907,7 @@ def build_unit(repo, vxdir, template, out_path):
             cur = None
     if u.aspect_mods:
         raise ExtractError('aspects declared but no //@ASPECT-MODULES marker')
-    return {'functions': u.functions, 'types': u.types, 'log': u.log, 'fnmap': fnmap, 'conjunction_rule': u.conjunction_rule, 'verus_args': u.verus_args}
+    return {'functions': u.functions, 'types': u.types, 'log': u.log, 'fnmap': fnmap, 'conjunction_rule': u.conjunction_rule, 'verus_args': u.verus_args, 'ranges': u.ranges}
 
 
 if __name__ == '__main__':
